@@ -156,6 +156,16 @@ func newCSS(input utils.ContentInput, baseUrl string,
 	mediaType string, fontConfig text.FontConfiguration, matcher *matcher,
 	pageRules *[]PageRule, counterStyle counters.CounterStyle,
 ) (CSS, error) {
+	return newImportedCSS(input, baseUrl, urlFetcher, checkMimeType, mediaType, fontConfig, matcher, pageRules, counterStyle, nil)
+}
+
+// newImportedCSS is newCSS for a stylesheet reached through the chain of @import rules [importChain]
+// (URLs of the stylesheets being imported, this one included): a cycle among them is not followed.
+func newImportedCSS(input utils.ContentInput, baseUrl string,
+	urlFetcher utils.UrlFetcher, checkMimeType bool,
+	mediaType string, fontConfig text.FontConfiguration, matcher *matcher,
+	pageRules *[]PageRule, counterStyle counters.CounterStyle, importChain []string,
+) (CSS, error) {
 	logger.ProgressLogger.Printf("Step 2 - Fetching and parsing CSS - %s", input)
 
 	if urlFetcher == nil {
@@ -183,8 +193,8 @@ func newCSS(input utils.ContentInput, baseUrl string,
 	}
 
 	out := CSS{baseUrl: ressource.BaseUrl}
-	preprocessStylesheet(mediaType, ressource.BaseUrl, stylesheet, urlFetcher, matcher,
-		pageRules, fontConfig, counterStyle, false)
+	preprocessImportedStylesheet(mediaType, ressource.BaseUrl, stylesheet, urlFetcher, matcher,
+		pageRules, fontConfig, counterStyle, false, importChain)
 	out.matcher = *matcher
 	out.pageRules = *pageRules
 	return out, nil
